@@ -87,6 +87,9 @@ impl Mon {
                     return None;
                 }
                 out.count("settlement_checks");
+                if w.cfg.real_feed {
+                    out.count("settlement_checks_real_feed");
+                }
                 if s.pre.time < st0.next_funding_time {
                     return Some(Violation::new(
                         "settled_before_funding_time",
@@ -330,6 +333,8 @@ impl Mon {
 
 pub fn prop() -> HistProp {
     let mut w = Weights::trading();
+    // funding drains: the oracle is set so that the next settlement consumes about half / all / several times a holder's margin
+    w.drain = 3;
     w.funding = 18;
     w.block = 18;
     w.oracle = 10;
@@ -337,7 +342,11 @@ pub fn prop() -> HistProp {
     w.squeeze = 2;
     w.liq_weakest = 4;
     w.balance = 4;
-    let p = CfgProfile::general();
+    // a run of funding periods settled one after the other (the per-market list of cumulative fractions grows long)
+    w.burst = 2;
+    let mut p = CfgProfile::general();
+    // one deployment in four reads its oracle from the repository's own price feed (the funding path only needs its TWAP)
+    p.real_feed = None;
     HistProp {
         id: "C11",
         level: "exploration",
